@@ -20,6 +20,18 @@
 //!
 //! Deviations from DESIGN.md: lives in `vf-tree`; keys are not classified by kind (the pool is
 //! applied to every key, `set` decides) — sound by construction and it cannot miss a kind.
+//!
+//! FINDINGS (genuine, open in /verif/known_findings.json; cases under /verif/regressions/C43/c43a;
+//! proposed repair /verif/fixes/C43-config-failed-set-and-duplicate-entry.diff):
+//! * `failed-set-materialises-default` / `failed-set-creates-entries`: `Option<F>::set` and the
+//!   per-column hash map insert the default BEFORE parsing, so a rejected value turns a NULL option
+//!   into `Some(default)` (or leaves a struct / a column entry behind) — claim 3 broken.
+//! * `duplicate-key:format.crypto.file_encryption.store_aad_prefix`: a stray `visit` line reports
+//!   that key twice (second time with the AAD prefix string, which `set` rejects for a bool).
+//! Every failing outcome is classified (`Finding.class`); a case is excluded exactly when its class
+//! is an open entry (so any other failure, also on the same key, is still a violation).
+//!
+//! Sensitivity probes: PROBES-PLACEHOLDER
 use datafusion::common::config::{ConfigFileType, ConfigOptions, TableOptions};
 use proptest::prelude::*;
 use serde::{Deserialize, Serialize};
